@@ -1,4 +1,6 @@
 import MypyVerif.Proofs.StubSig
+import MypyVerif.Proofs.StubImports
+import MypyVerif.Proofs.StubDefault
 /-!
 # C19 — generated stubs are valid, self-consistent and faithful: the three decision cores
 
@@ -13,129 +15,313 @@ variable (sl : Nat → Nat)
 
 /-! ## (a) signature emission -/
 
-def PySig.aPo (s : PySig) : List Arg := s.po.map (mkArg .pos true)
-def PySig.aPp (s : PySig) : List Arg := s.pp.map (mkArg .pos false)
-def PySig.aVa (s : PySig) : List Arg := s.va.toList.map (mkVArg .star)
-def PySig.aKw (s : PySig) : List Arg := s.kw.map (mkArg .named false)
-def PySig.aKa (s : PySig) : List Arg := s.ka.toList.map (mkVArg .star2)
+/-- **sig_roundtrip** (the provable part).  For every signature Python's grammar admits — any number of
+    positional-only, positional, keyword-only parameters, optional `*args`/`**kwargs`, any annotations and
+    initializers, defaults obeying the compiler's rule — in which no parameter outside the `/` prefix is
+    named `__x`: Python reads the emitted parameter list back as the same names, kinds and has-default flags. -/
+theorem sig_roundtrip_partial (s : PySig) (hd : s.DefaultsOk) (hne : s.NoElide) (hg : s.GoodDefaults) :
+    parseItems (emitArgs sl false s.toMypy) = some s.summary := by
+  rw [emit_shape sl s hne]
+  have hre : s.shape sl =
+      (itemsFrom sl 0 s.aPo ++ (if s.po.isEmpty then [] else [Item.slash]) ++ itemsFrom sl s.po.length s.aPp) ++
+      (itemsFrom sl (s.po.length + s.pp.length) s.aVa ++ s.starItems ++
+        itemsFrom sl (s.po.length + s.pp.length + s.aVa.length) s.aKw ++
+        itemsFrom sl (s.po.length + s.pp.length + s.aVa.length + s.kw.length) s.aKa) := by
+    simp [PySig.shape, List.append_assoc]
+  rw [hre]
+  unfold parseItems
+  rw [run_append, run_positional sl s hd hg]
+  simp only [Option.bind_some]
+  obtain ⟨st', hr, hn, ha⟩ := run_tail sl s hg (s.po.length + s.pp.length)
+    (s.po.length + s.pp.length + s.aVa.length) (s.po.length + s.pp.length + s.aVa.length + s.kw.length)
+    (if s.po.isEmpty then .pre else .post) ((s.po ++ s.pp).any PParam.hasD)
+    (s.po.map (fun p => (p.name, PKind.posOnly, p.hasD)) ++ s.pp.map (fun p => (p.name, PKind.pos, p.hasD)))
+    (by cases s.po <;> simp)
+  rw [hr]
+  simp [hn, ha, PySig.summary]
 
-/-- the bare `*` is emitted exactly when there are keyword-only parameters and no `*args` -/
-def PySig.starItems (s : PySig) : List Item := if s.va.isNone && !s.kw.isEmpty then [.bareStar] else []
+/-- Python's `parameters` production, as a predicate on the emitted items:
+    `po* ["/"] pp* ["*args" | "*" kw+ | kw = ε] kw* ["**kwargs"]` with the compiler's rule on defaults. -/
+def GrammarShape (items : List Item) : Prop :=
+  ∃ (po slash pp star kw ka : List Item),
+    items = po ++ slash ++ pp ++ star ++ kw ++ ka ∧
+    (∀ x ∈ po ++ pp ++ kw, x.isParam = true) ∧
+    ((slash = [] ∧ po = []) ∨ (slash = [Item.slash] ∧ po ≠ [])) ∧                 -- `/` only after ≥ 1 positional-only
+    ((star = [] ∧ kw = []) ∨ (∃ n a, star = [Item.vararg n a]) ∨ (star = [Item.bareStar] ∧ kw ≠ [])) ∧  -- at most one `*`
+    (ka = [] ∨ ∃ n a, ka = [Item.kwarg n a]) ∧                                      -- at most one `**`, last
+    mono false ((po ++ pp).map Item.hasD) = true                                    -- no non-default after default
 
-/-- the emitted parameter list, written along the grammar's production -/
-def PySig.shape (s : PySig) : List Item :=
-  itemsFrom sl 0 s.aPo ++ (if s.po.isEmpty then [] else [Item.slash]) ++
-  itemsFrom sl s.po.length s.aPp ++ itemsFrom sl (s.po.length + s.pp.length) s.aVa ++ s.starItems ++
-  itemsFrom sl (s.po.length + s.pp.length + s.aVa.length) s.aKw ++
-  itemsFrom sl (s.po.length + s.pp.length + s.aVa.length + s.kw.length) s.aKa
-
-theorem countPO_aPo (s : PySig) : countPO s.aPo = s.po.length := by
-  simp [countPO, PySig.aPo, mkArg, List.filter_map, Function.comp_def]
-
-theorem countPO_noElide (l : List PParam) (k : AKind) (h : ∀ p ∈ l, elide p.name = false) :
-    countPO (l.map (mkArg k false)) = 0 := by
-  induction l with
-  | nil => rfl
-  | cons p r ih =>
-    have hp := h p (by simp)
-    have := ih (fun x hx => h x (by simp [hx]))
-    simp only [countPO, List.map_cons, List.filter_cons, mkArg, hp, Bool.or_self, Bool.false_eq_true,
-      ↓reduceIte] at this ⊢
-    exact this
-
-theorem countPO_v (o : Option VParam) (k : AKind) (h : ∀ p ∈ o, elide p.name = false) :
-    countPO (o.toList.map (mkVArg k)) = 0 := by
-  cases o with
-  | none => rfl
-  | some v => have := h v rfl; simp [countPO, mkVArg, this]
-
-/-- The loop of `_get_func_args` followed by the `/` insertion produces exactly the grammar-shaped list. -/
-theorem emit_shape (s : PySig) (hne : s.NoElide) : emitArgs sl false s.toMypy = s.shape sl := by
-  obtain ⟨hpp, hva, hkw, hka⟩ := hne
-  have hsplit : s.toMypy = (s.aPo ++ s.aPp ++ s.aVa) ++ s.aKw ++ s.aKa := by
-    simp [PySig.toMypy, PySig.aPo, PySig.aPp, PySig.aVa, PySig.aKw, PySig.aKa]
-  have h1 : ∀ a ∈ s.aPo ++ s.aPp ++ s.aVa, a.kind ≠ .named := by
-    intro a ha
-    simp only [PySig.aPo, PySig.aPp, PySig.aVa, List.mem_append, List.mem_map] at ha
-    rcases ha with (⟨p, _, rfl⟩ | ⟨p, _, rfl⟩) | ⟨p, _, rfl⟩ <;> simp [mkArg, mkVArg]
-  have hkwk : ∀ a ∈ s.aKw, a.kind = .named := by
-    intro a ha; simp only [PySig.aKw, List.mem_map] at ha; obtain ⟨p, _, rfl⟩ := ha; rfl
-  have hkak : ∀ a ∈ s.aKa, a.kind ≠ .named := by
-    intro a ha; simp only [PySig.aKa, List.mem_map] at ha; obtain ⟨p, _, rfl⟩ := ha; simp [mkVArg]
-  have hcnt : countPO (s.aPo ++ s.aPp ++ s.aVa) = s.po.length := by
-    rw [countPO_append, countPO_append, countPO_aPo]
-    have := countPO_noElide s.pp .pos hpp
-    have := countPO_v s.va .star hva
-    simp_all [PySig.aPp, PySig.aVa]
-  have hcntkw : countPO s.aKw = 0 := countPO_noElide s.kw .named hkw
-  have hcntka : countPO s.aKa = 0 := countPO_v s.ka .star2 hka
-  -- the state after the three non-keyword segments
-  have hst1 := fold_nonNamed sl (s.aPo ++ s.aPp ++ s.aVa) h1 { out := [], cnt := 0, idx := 0 }
-  simp only [List.nil_append, Nat.zero_add, hcnt] at hst1
-  -- starred-ness of what has been collected so far
-  have hstar : (itemsFrom sl 0 (s.aPo ++ s.aPp ++ s.aVa)).any Item.starred = s.va.isSome := by
-    rw [itemsFrom_append, List.any_append]
-    have hp : (itemsFrom sl 0 (s.aPo ++ s.aPp)).any Item.starred = false := by
-      apply itemsFrom_params_not_starred
-      intro a ha
-      simp only [PySig.aPo, PySig.aPp, List.mem_append, List.mem_map] at ha
-      rcases ha with ⟨p, _, rfl⟩ | ⟨p, _, rfl⟩ <;> exact Or.inl rfl
-    rw [hp, Bool.false_or]
-    cases hv : s.va with
-    | none => simp [PySig.aVa, hv, itemsFrom]
+/-- **sig_valid**: the emitted parameter list is an instance of Python's grammar production — `/` only after
+    at least one positional-only parameter, at most one `*` (bare only when a keyword-only parameter
+    follows), at most one `**` and it is last, no non-default after a default among the positionals. -/
+theorem sig_valid_partial (s : PySig) (hd : s.DefaultsOk) (hne : s.NoElide) :
+    GrammarShape (emitArgs sl false s.toMypy) := by
+  rw [emit_shape sl s hne]
+  have hpo : ∀ a ∈ s.aPo, a.kind = .pos ∨ a.kind = .named := by
+    intro a ha; simp only [PySig.aPo, List.mem_map] at ha; obtain ⟨p, _, rfl⟩ := ha; exact Or.inl rfl
+  have hpp : ∀ a ∈ s.aPp, a.kind = .pos ∨ a.kind = .named := by
+    intro a ha; simp only [PySig.aPp, List.mem_map] at ha; obtain ⟨p, _, rfl⟩ := ha; exact Or.inl rfl
+  have hkw : ∀ a ∈ s.aKw, a.kind = .pos ∨ a.kind = .named := by
+    intro a ha; simp only [PySig.aKw, List.mem_map] at ha; obtain ⟨p, _, rfl⟩ := ha; exact Or.inr rfl
+  obtain ⟨p1, d1⟩ := itemsFrom_params sl 0 s.aPo hpo
+  obtain ⟨p2, d2⟩ := itemsFrom_params sl s.po.length s.aPp hpp
+  obtain ⟨p3, _⟩ := itemsFrom_params sl (s.po.length + s.pp.length + s.aVa.length) s.aKw hkw
+  refine ⟨itemsFrom sl 0 s.aPo, if s.po.isEmpty then [] else [Item.slash], itemsFrom sl s.po.length s.aPp,
+    itemsFrom sl (s.po.length + s.pp.length) s.aVa ++ s.starItems,
+    itemsFrom sl (s.po.length + s.pp.length + s.aVa.length) s.aKw,
+    itemsFrom sl (s.po.length + s.pp.length + s.aVa.length + s.kw.length) s.aKa, ?_, ?_, ?_, ?_, ?_, ?_⟩
+  · simp [PySig.shape, List.append_assoc]
+  · intro x hx
+    simp only [List.mem_append] at hx
+    rcases hx with (hx | hx) | hx
+    · exact p1 x hx
+    · exact p2 x hx
+    · exact p3 x hx
+  · cases hq : s.po with
+    | nil => left; simp [PySig.aPo, hq, itemsFrom]
+    | cons p r => right; simp [PySig.aPo, hq, itemsFrom]
+  · cases hv : s.va with
     | some v =>
-      have he : ∀ f, (argItem sl f (mkVArg .star v)).starred = true := by
-        intro f; obtain ⟨ann, he⟩ := argItem_star sl f (mkVArg .star v) rfl rfl; rw [he]; rfl
-      simp [PySig.aVa, hv, itemsFrom, he]
-  -- the keyword-only segment
-  have hst2 : (s.aKw).foldl (estep sl false)
-        { out := itemsFrom sl 0 (s.aPo ++ s.aPp ++ s.aVa), cnt := s.po.length, idx := (s.aPo ++ s.aPp ++ s.aVa).length } =
-      { out := itemsFrom sl 0 (s.aPo ++ s.aPp ++ s.aVa) ++ s.starItems ++
-                 itemsFrom sl (s.aPo ++ s.aPp ++ s.aVa).length s.aKw,
-        cnt := s.po.length, idx := (s.aPo ++ s.aPp ++ s.aVa).length + s.aKw.length } := by
-    cases hk : s.aKw with
-    | nil =>
-      have : s.kw = [] := by simpa [PySig.aKw] using hk
-      simp [itemsFrom, PySig.starItems, this]
-    | cons a r =>
-      have hkne : s.kw.isEmpty = false := by
-        cases hq : s.kw with
-        | nil => simp [PySig.aKw, hq] at hk
-        | cons _ _ => rfl
-      rw [hk] at hkwk hcntkw
-      cases hv : s.va with
-      | none =>
-        rw [fold_named_fresh sl a r hkwk _ (by rw [hstar, hv]; rfl)]
-        simp [PySig.starItems, hv, hkne, hcntkw]
-      | some v =>
-        rw [fold_named_starred sl (a :: r) hkwk _ (by rw [hstar, hv]; rfl)]
-        simp [PySig.starItems, hv, hcntkw]
-  have hst3 := fold_nonNamed sl s.aKa hkak
-    { out := itemsFrom sl 0 (s.aPo ++ s.aPp ++ s.aVa) ++ s.starItems ++
-               itemsFrom sl (s.aPo ++ s.aPp ++ s.aVa).length s.aKw,
-      cnt := s.po.length, idx := (s.aPo ++ s.aPp ++ s.aVa).length + s.aKw.length }
-  simp only [hcntka, Nat.add_zero] at hst3
-  have hlen : (s.aPo ++ s.aPp ++ s.aVa).length = s.po.length + s.pp.length + s.aVa.length := by
-    simp [PySig.aPo, PySig.aPp]; omega
-  have hlenkw : s.aKw.length = s.kw.length := by simp [PySig.aKw]
-  unfold emitArgs
-  rw [hsplit, List.foldl_append, List.foldl_append, hst1, hst2, hst3]
-  simp only [hlen, hlenkw]
-  rw [itemsFrom_append, itemsFrom_append]
-  have hpolen : (itemsFrom sl 0 s.aPo).length = s.po.length := by
-    rw [itemsFrom_length]; simp [PySig.aPo]
-  have hapolen : s.aPo.length = s.po.length := by simp [PySig.aPo]
-  have happlen : s.aPp.length = s.pp.length := by simp [PySig.aPp]
-  unfold PySig.shape
-  cases hpo : s.po with
-  | nil =>
-    simp [PySig.aPo, hpo, itemsFrom, happlen]
-  | cons p r =>
-    have hne0 : ¬ (p :: r).length = 0 := by simp
-    rw [hpo] at hpolen hapolen
-    simp only [hne0, ↓reduceIte, List.isEmpty_cons, Bool.false_eq_true, hapolen, happlen,
-      List.length_append, Nat.zero_add, List.append_assoc]
-    rw [← hpolen, insertAt_length_append]
-    simp [hpolen]
+      right; left
+      obtain ⟨ann, he⟩ := argItem_star sl ((s.po.length + s.pp.length) == 0) (mkVArg .star v) rfl rfl
+      exact ⟨v.name, ann, by simp only [PySig.aVa, hv, Option.toList_some, List.map_cons, List.map_nil, itemsFrom, PySig.starItems, Option.isNone_some, Bool.false_and, Bool.false_eq_true, ↓reduceIte, List.append_nil]; exact congrArg (· :: []) he⟩
+    | none =>
+      cases hq : s.kw with
+      | nil => left; simp [PySig.aVa, PySig.aKw, hv, hq, itemsFrom, PySig.starItems]
+      | cons p r => right; right; simp [PySig.aVa, PySig.aKw, hv, hq, itemsFrom, PySig.starItems]
+  · cases hk : s.ka with
+    | none => left; simp [PySig.aKa, hk, itemsFrom]
+    | some v =>
+      right
+      obtain ⟨ann, he⟩ := argItem_star2 sl
+        ((s.po.length + s.pp.length + s.aVa.length + s.kw.length) == 0) (mkVArg .star2 v) rfl rfl
+      exact ⟨v.name, ann, by simp only [PySig.aKa, hk, Option.toList_some, List.map_cons, List.map_nil, itemsFrom]; exact congrArg (· :: []) he⟩
+  · rw [List.map_append, d1, d2, aPo_hasD, aPp_hasD, ← List.map_append]
+    exact hd
+
+/-- corollary: Python accepts the emitted parameter list -/
+theorem sig_parses_partial (s : PySig) (hd : s.DefaultsOk) (hne : s.NoElide) (hg : s.GoodDefaults) :
+    (parseItems (emitArgs sl false s.toMypy)).isSome = true := by
+  rw [sig_roundtrip_partial sl s hd hne hg]; rfl
+
+/-! The full statements (without `NoElide`) are false of the current code: `make_argument` sets `pos_only`
+    for every parameter named `__x`, whatever its kind and position, and `_get_func_args` *counts* the
+    flags to place the `/`. -/
+
+def ident (s : String) : Ident := s.toList
+
+/-- `def k(__x, *, __y): ...`  ⟶  `def k(__x, *, /, __y)` -/
+def witnessSyntax : PySig :=
+  { po := [], pp := [⟨['_','_','x'], none, none⟩], va := none, kw := [⟨['_','_','y'], none, none⟩], ka := none }
+
+/-- `def k(a, *, __x): ...`  ⟶  `def k(a, /, *, __x)`: `a` silently becomes positional-only -/
+def witnessKind : PySig :=
+  { po := [], pp := [⟨['a'], none, none⟩], va := none, kw := [⟨['_','_','x'], none, none⟩], ka := none }
+
+theorem witnessSyntax_unparseable : parseItems (emitArgs (fun _ => 0) false witnessSyntax.toMypy) = none := by
+  decide
+
+theorem witnessKind_changed :
+    parseItems (emitArgs (fun _ => 0) false witnessKind.toMypy) =
+      some [(['a'], .posOnly, false), (['_','_','x'], .kwOnly, false)] := by
+  decide
+
+/-- **not_sig_roundtrip**: the round trip fails for a signature Python accepts. -/
+theorem not_sig_roundtrip :
+    ¬ ∀ (sl : Nat → Nat) (s : PySig), s.DefaultsOk →
+        parseItems (emitArgs sl false s.toMypy) = some s.summary := by
+  intro h
+  have := h (fun _ => 0) witnessSyntax (by decide)
+  rw [witnessSyntax_unparseable] at this
+  cases this
+
+/-- **not_sig_valid**: an emitted parameter list that Python rejects. -/
+theorem not_sig_valid :
+    ¬ ∀ (sl : Nat → Nat) (s : PySig), s.DefaultsOk →
+        (parseItems (emitArgs sl false s.toMypy)).isSome = true := by
+  intro h
+  have := h (fun _ => 0) witnessSyntax (by decide)
+  rw [witnessSyntax_unparseable] at this
+  cases this
+
+-- non-vacuity: a signature using every parameter kind satisfies the hypotheses, and the round trip is concrete
+def demoSig : PySig :=
+  { po := [⟨['s','e','l','f'], none, none⟩, ⟨['a'], some "int", none⟩],
+    pp := [⟨['b'], none, some (.const .none)⟩],
+    va := none,
+    kw := [⟨['c'], some "str", none⟩, ⟨['d'], none, some (.const .true)⟩],
+    ka := some ⟨['k','w'], none⟩ }
+example : demoSig.DefaultsOk ∧ demoSig.NoElide ∧ demoSig.GoodDefaults := by decide
+example : (parseItems (emitArgs (fun _ => 0) false demoSig.toMypy)) = some demoSig.summary :=
+  sig_roundtrip_partial _ demoSig (by decide) (by decide) (by decide)
+example : (emitArgs (fun _ => 0) false demoSig.toMypy).length = 8 := by decide   -- 6 parameters + `/` + `*`
 
 end StubSig
+
+namespace StubDefault
+
+/-! ## (b) default-value rendering -/
+
+/-- **default_is_valid_expr** (the provable part): when the initializer contains no `not` operator and every
+    bytes literal in it renders to one well-formed lexeme, the emitted default — the rendered literal, or
+    `...` when the code gives up or the text is longer than 200 characters — is an expression of Python's
+    grammar. -/
+theorem default_is_valid_expr_partial (sl : Nat → Nat) (e : DExpr) (hg : e.good = true) :
+    IsExpr (defaultToks sl e) := by
+  unfold defaultToks
+  cases h : render e with
+  | none => exact IsExpr.ellipsis
+  | some t =>
+    simp only
+    split
+    · exact render_isExpr e t h hg
+    · exact IsExpr.ellipsis
+
+/-- **default_closed** (the provable part): under the same hypotheses and when every float literal is finite,
+    the emitted default contains no free name and no mis-lexed text: it is a literal display (or `...`) and
+    denotes in the stub what the initializer denotes in the source. -/
+theorem default_closed_partial (sl : Nat → Nat) (e : DExpr) (hg : e.good = true) (hf : e.finite = true) :
+    Closed (defaultToks sl e) = true := by
+  unfold defaultToks
+  cases h : render e with
+  | none => rfl
+  | some t =>
+    simp only
+    split
+    · exact render_closed e t h hg hf
+    · rfl
+
+/-- `b'\'"'` (a bytes literal containing both kinds of quote): BytesExpr.value is `\'"`, rendered `b'\\'"'` -/
+def witnessBytes : DExpr := .bytes ['\\', '\'', '"']
+/-- `not 1.5` ⟶ the text `not1.5` -/
+def witnessNotFloat : DExpr := .unary .not (.float "1.5" true)
+/-- `not 1` ⟶ the text `not1`, a name -/
+def witnessNotInt : DExpr := .unary .not (.int 1)
+/-- `1e999` ⟶ the text `inf`, a name -/
+def witnessInf : DExpr := .float "inf" false
+
+/-- **not_default_is_valid_expr**: full statement refuted (two independent witnesses). -/
+theorem not_default_is_valid_expr : ¬ ∀ (sl : Nat → Nat) (e : DExpr), IsExpr (defaultToks sl e) := by
+  intro h
+  have h1 := h (fun _ => 0) witnessBytes
+  have e1 : defaultToks (fun _ => 0) witnessBytes = [.bytes "'\\\\'\"'".toList] := by decide
+  rw [e1] at h1
+  exact bad_bytes_not_expr _ (by decide) h1
+
+theorem witnessNotFloat_invalid : ¬ IsExpr (defaultToks (fun _ => 0) witnessNotFloat) := by
+  have e1 : defaultToks (fun _ => 0) witnessNotFloat = [.raw "not1.5"] := by decide
+  rw [e1]; exact raw_not_expr _
+
+/-- **not_default_closed**: `not 1` and `1e999` are emitted as the free names `not1` and `inf`. -/
+theorem not_default_closed :
+    ¬ ∀ (sl : Nat → Nat) (e : DExpr), e.finite = true → Closed (defaultToks sl e) = true := by
+  intro h
+  have := h (fun _ => 0) witnessNotInt (by decide)
+  revert this; decide
+
+theorem witnessInf_free_name : defaultToks (fun _ => 0) witnessInf = [.name "inf"] := by decide
+
+/-! a sufficient syntactic condition for a bytes literal to be rendered well: no backslash, no `'` -/
+
+/-- **plain_bytes_ok**: a bytes literal whose repr body has no backslash and no single quote is rendered
+    as one well-formed bytes literal (so `DExpr.good` holds for it). -/
+theorem plain_bytes_ok (b : List Char) (h : ∀ c ∈ b, c ≠ '\\' ∧ c ≠ '\'') : lexOk (renderBytes b) = true := by
+  have hq : reprQuote b = '\'' := by
+    unfold reprQuote
+    have : b.contains '\'' = false := by
+      simp only [List.contains_eq_mem, decide_eq_false_iff_not]
+      intro hm; exact (h _ hm).2 rfl
+    simp only [this, Bool.false_and, Bool.false_eq_true, ↓reduceIte]
+  unfold renderBytes pyReprStr
+  rw [hq, escapeFor_id '\'' b h]
+  have hnb : ∀ c ∈ '\'' :: b ++ ['\''], c ≠ '\\' := by
+    intro c hc
+    simp only [List.cons_append, List.mem_cons, List.mem_append, List.not_mem_nil, or_false] at hc
+    rcases hc with rfl | hc | rfl
+    · decide
+    · exact (h c hc).1
+    · decide
+  rw [dedouble_id _ hnb]
+  simp only [List.cons_append, lexOk, beq_self_eq_true, Bool.true_or, Bool.true_and]
+  exact scanLit_plain '\'' b h
+
+-- non-vacuity: a nested literal satisfies the hypotheses; the emitted default is concrete
+def demoDefault : DExpr :=
+  .tuple (.cons (.int 1) (.cons (.list (.cons (.unary .neg (.float "1.5" true)) (.cons (.bytes ['x', '"']) .nil)))
+    (.cons (.dict (.cons (.str 0) (.const .none) .nil)) .nil)))
+example : demoDefault.good = true ∧ demoDefault.finite = true := by decide
+example : renderText (defaultToks (fun _ => 3) demoDefault) = "(1, [-1.5, b'x\"'], {'s0': None})" := by decide
+example : IsExpr (defaultToks (fun _ => 3) demoDefault) := default_is_valid_expr_partial _ _ (by decide)
+
+end StubDefault
+
+namespace StubImports
+
+/-! ## (c) import bookkeeping -/
+
+/-- closedness of one tracker state: every required name the tracker knows as imported is bound by the
+    emitted import lines -/
+theorem imports_closed_state (t : Tracker) (hI : KeysNE t) (r : DName) (hr : r ∈ t.required)
+    (hk : hasKey r t.moduleFor = true) : available t.importLines r = true := by
+  have hne : r ≠ [] := by
+    unfold hasKey at hk
+    cases hm : lookup r t.moduleFor with
+    | none => rw [hm] at hk; cases hk
+    | some v => exact hI _ (lookup_some_mem r v _ hm)
+  obtain ⟨l, hl, hb⟩ := lineFor_binds t r hk hne
+  simp only [available, Tracker.importLines, List.any_eq_true, List.mem_filterMap, decide_eq_true_eq]
+  exact ⟨l, ⟨r, hr, hl⟩, hb⟩
+
+/-- **imports_closed**.  For every sequence of `add_import_from` / `add_import` / `require_name` / `reexport`
+    operations, in any order: every name in `required_names` that the tracker has seen in an import
+    statement is bound by a line of `import_lines()`. -/
+theorem imports_closed (ops : List Op) (r : DName) (hr : r ∈ (runOps ops).required)
+    (hk : hasKey r (runOps ops).moduleFor = true) : available (runOps ops).importLines r = true :=
+  imports_closed_state _ (runOps_keysNE ops {} (by intro p hp; cases hp)) r hr hk
+
+/-- **imports_closed_request**.  Whenever, at any point of any operation sequence, the annotation printer
+    asks for a name `q` (`require_name(q)`): the name recorded for it is a prefix `p` of `q` (its root
+    module path), it is still recorded at the end, and — if `p` is known as imported then, or is imported
+    by any later operation — the final import lines bind `p`.  (A `p` that is never imported is a name
+    the tracker leaves to the stub's own definitions or to builtins.) -/
+theorem imports_closed_request (ops1 ops2 : List Op) (q : DName) :
+    let p := requireTarget (runOps ops1).direct q
+    let t := runOps (ops1 ++ [Op.requireName q] ++ ops2)
+    p <+: q ∧ p ∈ t.required ∧
+    (hasKey p (runOps ops1).moduleFor = true ∨ hasKey p t.moduleFor = true → available t.importLines p = true) := by
+  intro p t
+  have hpre : p <+: q := requireTarget_prefix _ q
+  have ht : t = runOps ops2 ((runOps ops1).requireName q) := by
+    show runOps (ops1 ++ [Op.requireName q] ++ ops2) = _
+    rw [runOps_append, runOps_append]; rfl
+  have hmem1 : p ∈ ((runOps ops1).requireName q).required := by
+    simp only [Tracker.requireName]; exact (mem_addSet _ _ _).2 (Or.inl rfl)
+  have hmono := runOps_mono ops2 ((runOps ops1).requireName q)
+  have hmem : p ∈ t.required := by rw [ht]; exact hmono.2 p hmem1
+  refine ⟨hpre, hmem, ?_⟩
+  intro hk
+  have hk' : hasKey p t.moduleFor = true := by
+    rcases hk with hk | hk
+    · rw [ht]; exact hmono.1 p ((requireName_mono _ q).1 p hk)
+    · exact hk
+  exact imports_closed _ p hmem hk'
+
+-- non-vacuity: a concrete operation sequence mixing all four operations
+def i (s : String) : Ident := s.toList
+def demoOps : List Op :=
+  [ .addImport [i "os", i "path"] none false,
+    .addImportFrom (i "typing") [(i "Any", none), (i "List", some (i "L"))] false,
+    .requireName [i "os", i "path", i "PathLike"],
+    .requireName [i "L"],
+    .addImport [i "collections", i "abc"] (some (i "cabc")) true,
+    .reexport [i "Any"],
+    .requireName [i "Undefined", i "attr"] ]
+example : (runOps demoOps).required =
+    [[i "Undefined"], [i "Any"], [i "cabc"], [i "L"], [i "os", i "path"]] := by decide
+example : (runOps demoOps).importLines =
+    [ .fromImport (i "typing") [i "Any"] (some [i "Any"]), .importMod [i "collections", i "abc"] (some [i "cabc"]),
+      .fromImport (i "typing") [i "List"] (some [i "L"]), .importMod [i "os", i "path"] none ] := by decide
+example : available (runOps demoOps).importLines [i "os", i "path"] = true ∧
+    available (runOps demoOps).importLines [i "Undefined"] = false := by decide
+
+end StubImports
